@@ -31,6 +31,8 @@ var vSortSpecs = []vSortSpec{
 	{"m = true sort by f asc", []vSortField{{"f", true}}},
 	{"m = true sort by f desc", []vSortField{{"f", false}}},
 	{"m = true sort by b", []vSortField{{"b", true}}},
+	{"m = true sort by t", []vSortField{{"t", true}}},
+	{"m = true sort by t desc, i", []vSortField{{"t", false}, {"i", true}}},
 	{"m = true sort by b desc, i", []vSortField{{"b", false}, {"i", true}}},
 	{"m = true sort by i, s desc", []vSortField{{"i", true}, {"s", false}}},
 	{"m = true sort by b, i, s, f, id desc", []vSortField{{"b", true}, {"i", true}, {"s", true}, {"f", true}, {"id", false}}},
@@ -72,6 +74,10 @@ func verifC02Rows(n int, spec []vSortField) []*vRow {
 		}
 		if need["b"] {
 			row.B = verifOptBool("b")
+		}
+		if need["t"] && verifrt.Choose("t.nil", 2) == 1 {
+			v := verifrt.TimeUTC("t") // any instant of year 1..9999
+			row.T = &v
 		}
 		rows[r] = row
 	}
@@ -157,7 +163,7 @@ func VerifC02_SortedPaging() {
 		verifC02(vSortSpecs[3 : len(vSortSpecs)-2])
 		return
 	}
-	verifC02([]vSortSpec{vSortSpecs[3], vSortSpecs[6], vSortSpecs[8], vSortSpecs[10]})
+	verifC02([]vSortSpec{verifSpec("m = true sort by s"), verifSpec("m = true sort by i desc"), verifSpec("m = true sort by f desc"), verifSpec("m = true sort by b desc, i"), verifSpec("m = true sort by t")})
 }
 
 // the five-field specification with arbitrary (nullable) keys in every
@@ -175,7 +181,7 @@ func VerifC02_FiveFieldSort() {
 func verifToRows(rows []*vRow) []*verifrt.Row {
 	out := make([]*verifrt.Row, len(rows))
 	for i, r := range rows {
-		out[i] = &verifrt.Row{Id: r.Id, S: r.S, I: r.I, F: r.F, B: r.B, M: r.M}
+		out[i] = &verifrt.Row{Id: r.Id, S: r.S, I: r.I, F: r.F, B: r.B, M: r.M, T: r.T}
 	}
 	return out
 }
@@ -186,4 +192,13 @@ func verifMatchBits(rows []*vRow) []bool {
 		out[i] = r.M
 	}
 	return out
+}
+
+func verifSpec(text string) vSortSpec {
+	for _, sp := range vSortSpecs {
+		if sp.text == text {
+			return sp
+		}
+	}
+	panic("verif: no such sort spec: " + text)
 }
